@@ -358,3 +358,112 @@ impl Trace {
         })
     }
 }
+
+// ---------------------------------------------------------------------------------------------
+// static structure of a trace: which operands are handle references, which steps add a handle
+// ---------------------------------------------------------------------------------------------
+
+/// handles every client starts with (none, epsilon, allchar)
+pub const INITIAL_POOL: usize = 3;
+
+impl OpKind {
+    /// (number of leading scalar operands that are handle references, list `l` holds handles)
+    pub fn handle_refs(self) -> (usize, bool) {
+        use OpKind::*;
+        match self {
+            Concat | Union | Inter | Diff | IncludedIn | EqCheck => (2, false),
+            ConcatList | UnionList | InterList | Reentrant => (0, true),
+            DiffList => (1, true),
+            Compl | Star | Plus | Opt | Exp | Loop | LoopInf | CharDeriv | StrDeriv | ClassDeriv
+            | ClassDerivUnchecked | SetDeriv | SetDerivUnchecked | StrInRe | IsEmpty | GetString
+            | StartChar | StartClass | ClassInfo | Compile | TryCompile | Closure | Replace
+            | ReplaceAll | Reissue | ComplTwice | LoopOverflow | IterAbandon | CompileAbort => {
+                (1, false)
+            }
+            ReNone | All | AllChar | Eps | Char | Range | SmtRange | Str | BadChar | BadRange
+            | StrBad | Evict => (0, false),
+        }
+    }
+
+    /// does the step append one handle to its client's pool?
+    pub fn pushes(self) -> bool {
+        match self.cat() {
+            Cat::Ctor | Cat::Deriv => true,
+            Cat::Fault => matches!(
+                self,
+                OpKind::BadChar | OpKind::BadRange | OpKind::StrBad | OpKind::LoopOverflow | OpKind::Reentrant
+            ),
+            _ => false,
+        }
+    }
+}
+
+impl Trace {
+    /// rewrite every handle operand to the pool index it resolves to (same execution)
+    pub fn normalised(&self) -> Trace {
+        let nc = self.clients.len();
+        let mut pool = vec![INITIAL_POOL; nc];
+        let mut t = self.clone();
+        for st in t.steps.iter_mut() {
+            let c = st.client as usize % nc;
+            st.client = c as u8;
+            let (na, l) = st.op.handle_refs();
+            for i in 0..na {
+                st.a[i] = (st.a[i] as usize % pool[c]) as u32;
+            }
+            if l {
+                for x in st.l.iter_mut() {
+                    *x = (*x as usize % pool[c]) as u32;
+                }
+            }
+            if st.op.pushes() {
+                pool[c] += 1;
+            }
+        }
+        t
+    }
+
+    /// remove the steps whose index is in `gone` from a normalised trace, renumbering the handle
+    /// references of the remaining steps; references to removed handles become handle 0 (none)
+    pub fn without(&self, gone: &[bool]) -> Trace {
+        let nc = self.clients.len();
+        // per client: map old pool index -> new pool index (or None)
+        let mut maps: Vec<Vec<Option<u32>>> = (0..nc)
+            .map(|_| (0..INITIAL_POOL as u32).map(Some).collect())
+            .collect();
+        let mut next: Vec<u32> = vec![INITIAL_POOL as u32; nc];
+        let mut t = Trace {
+            seed: self.seed,
+            cuts: self.cuts.clone(),
+            clients: self.clients.clone(),
+            steps: Vec::new(),
+        };
+        for (i, st) in self.steps.iter().enumerate() {
+            let c = st.client as usize % nc;
+            if gone[i] {
+                if st.op.pushes() {
+                    maps[c].push(None);
+                }
+                continue;
+            }
+            let mut s2 = st.clone();
+            let (na, l) = st.op.handle_refs();
+            let m = &maps[c];
+            let map = |x: u32| -> u32 { m.get(x as usize).copied().flatten().unwrap_or(0) };
+            for k in 0..na {
+                s2.a[k] = map(s2.a[k]);
+            }
+            if l {
+                for x in s2.l.iter_mut() {
+                    *x = map(*x);
+                }
+            }
+            if st.op.pushes() {
+                maps[c].push(Some(next[c]));
+                next[c] += 1;
+            }
+            t.steps.push(s2);
+        }
+        t
+    }
+}
